@@ -75,11 +75,12 @@ PROPERTIES = {
         units=['timeout', 'kani_timeout'],
         canaries=['timeout'],
         counterexample=cex.cex_c11,
+        extra=[validate.default_timeouts_wiring],
         scope='the deadline armed for a request is exactly min(local default, timeout header) in both directions, either may be absent, an '
               'unparsable header counts as absent (closure contract), so a remote peer can shorten but never extend or disable the local limit (lemma); '
               'the request reaches the wrapped service exactly once; header parsing and printing; the configured defaults are what the accessors and layers hand to the middleware.',
         unverified=['ResponseFuture::poll (pin_project): that the handler is cut off at the deadline with RequestTimeout / a timeout error, and that a faster handler wins the race',
-                    'Builder::start installs both layers around the user service and every outbound call with the configured values (wiring; see seeded change C11-outbound-default-lost-layer-before-config, which this check does not catch)',
+                    'Builder::start installs both layers around the user service and every outbound call with the configured values: NOT under contract (ServiceBuilder / BoxLayer generics); exercised end to end on real networks by the execution check default_timeouts_wiring',
                     'meaning of str::parse::<u64> and u64::to_string (std; uninterpreted, assumed inverse)'],
         assumptions=['tokio::time::sleep(d) arms a timer of duration d (millisecond granularity)'],
     ),
